@@ -6,6 +6,7 @@ import (
 
 	"github.com/hydraide/hydraide/app/core/hydra/swamp"
 	"github.com/hydraide/hydraide/app/core/hydra/swamp/treasure"
+	"github.com/hydraide/hydraide/app/verifhook"
 	hydrapb "github.com/hydraide/hydraide/sdk/go/hydraidego/v3/hydraidepbgo"
 	"google.golang.org/grpc/codes"
 	"google.golang.org/grpc/status"
@@ -117,6 +118,7 @@ func (g Gateway) PatchExpiredTreasures(ctx context.Context, in *hydrapb.PatchExp
 	if selErr != nil {
 		return nil, status.Error(codes.InvalidArgument, fmt.Sprintf("invalid Filters: %s", selErr.Error()))
 	}
+	verifhook.Point("gateway.patchExpired.predicateBuilt")
 
 	// HowMany == 0 → "all currently-expired matching Filters" (mirrors
 	// ShiftMatchingTreasures' wire-level convention and the ShiftExpired
